@@ -59,6 +59,10 @@ def ops(g, traits, has_inv):
         reqs.put_invs(P(1), stale, {}, tag='PUT inventories(stale) empty'),
         reqs.reshaper({P(1): (g, {})}, {}, tag='reshaper(g) emptying P1'),
         reqs.reshaper({P(1): (stale, {})}, {}, tag='reshaper(stale) emptying P1'),
+        # ... and clearing the consumer that uses it (the allocation writer inside the reshape
+        # re-reads providers when it retries; the final inventory step must not)
+        reqs.reshaper({P(1): (g, {})}, {K(1): {'allocs': {}, 'cgen': 1}},
+                      tag='reshaper(g) emptying P1 and clearing K1'),
     ]
     return o
 
@@ -97,7 +101,7 @@ def run(ctx):
     sc = scenarios(ctx.quick, ctx.seed)
     tot = explore_conc.run_scenarios(ctx, 'C05', sc)
     fill(ctx, tot, len(sc), 'three start states (bare provider / inventory / inventory+traits+'
-         'aggregates+consumer) x all unordered pairs (with repetition) of 24 provider-writing '
+         'aggregates+consumer) x all unordered pairs (with repetition) of 25 provider-writing '
          'operations (PUT inventories, PUT inventory, POST/DELETE inventory, DELETE inventories, PUT '
          'traits changing/no-op, DELETE traits, PUT aggregates 1.19/1.18, reshaper, PUT allocations, '
          'PUT provider (rename, carries no generation); generation-carrying ones with current, stale and not-yet-'
